@@ -28,7 +28,6 @@ import (
 	"encoding/json"
 	"flag"
 	"fmt"
-	"net"
 	"os"
 	"path/filepath"
 	"regexp"
@@ -37,64 +36,18 @@ import (
 	"strings"
 	"time"
 
-	"context"
-
 	"github.com/ProtonMail/gluon"
-	"github.com/ProtonMail/gluon/connector"
-	"github.com/ProtonMail/gluon/imap"
 	"golang.org/x/text/encoding/ianaindex"
 )
 
 // ---- server ----------------------------------------------------------------------------------
 
-// newSysC15 is NewSys(SysOpts{}) plus the optional gluon.WithDisableParallelism (SysOpts has no field for extra
-// gluon options; sys.go is not ours to edit).
+// newSysC15: the whole-server harness with or without parallel evaluation.
 func newSysC15(disablePar bool) (*Sys, error) {
-	dir, err := os.MkdirTemp("", "vh-c15-")
-	if err != nil {
-		return nil, err
-	}
-	rec := &panicRecorder{}
-	opts := []gluon.Option{
-		gluon.WithDataDir(filepath.Join(dir, "store")),
-		gluon.WithDatabaseDir(filepath.Join(dir, "db")),
-		gluon.WithDelimiter("/"),
-		gluon.WithPanicHandler(rec),
-	}
 	if disablePar {
-		opts = append(opts, gluon.WithDisableParallelism())
+		return NewSys(SysOpts{Extra: []gluon.Option{gluon.WithDisableParallelism()}})
 	}
-	srv, err := gluon.New(opts...)
-	if err != nil {
-		return nil, err
-	}
-	all := imap.NewFlagSet(imap.FlagSeen, imap.FlagFlagged, imap.FlagDeleted, imap.FlagAnswered, imap.FlagDraft)
-	conn := connector.NewDummy([]string{"user"}, []byte(sysPassword), time.Hour, all, all, imap.NewFlagSet())
-	conn.SetUpdatesAllowedToFail(true)
-	ctx, cancel := context.WithCancel(context.Background())
-	userID, err := srv.AddUser(ctx, conn, []byte("passphrase"))
-	if err != nil {
-		cancel()
-		return nil, err
-	}
-	if err := conn.Sync(ctx); err != nil {
-		cancel()
-		return nil, err
-	}
-	ln, err := net.Listen("tcp", "127.0.0.1:0")
-	if err != nil {
-		cancel()
-		return nil, err
-	}
-	if err := srv.Serve(ctx, ln); err != nil {
-		cancel()
-		return nil, err
-	}
-	go func() {
-		for range srv.GetErrorCh() {
-		}
-	}()
-	return &Sys{Server: srv, Conn: conn, UserID: userID, Addr: ln.Addr().String(), Dir: dir, cancel: cancel, ln: ln, Panics: rec}, nil
+	return NewSys(SysOpts{})
 }
 
 // ---- world data --------------------------------------------------------------------------------
@@ -854,8 +807,7 @@ func (k *c15KeyGen) astring(b []byte) {
 	switch {
 	case c15IsAtomSafe(b) && k.r.Chance(1, 2):
 		k.emit(string(b))
-	case c15IsQuotedSafe(b) && (len(b) == 0 || k.r.Chance(3, 4)):
-		// (a zero-length literal {0} makes the command reader drop the connection: C11's finding, not asked here)
+	case c15IsQuotedSafe(b) && k.r.Chance(3, 4):
 		q := strings.ReplaceAll(strings.ReplaceAll(string(b), "\\", "\\\\"), "\"", "\\\"")
 		k.emit("\"" + q + "\"")
 	default:
@@ -938,7 +890,7 @@ func (k *c15KeyGen) dayKey(name string) {
 
 func (k *c15KeyGen) num() (string, int64) {
 	r := k.r
-	if k.odd && r.Chance(1, 10) {
+	if k.odd && r.Chance(1, 40) {
 		v := uint64(1)<<32 + uint64(r.Range(0, 3))
 		return strconv.FormatUint(v, 10), int64(v)
 	}
@@ -1274,9 +1226,12 @@ func c15Witnesses() []c15Witness {
 	ws = append(ws, c15Witness{"uid-empty-mailbox", "violation spec-mismatch classes=uid-empty-mailbox", []string{"par 0",
 		"observe select", "mode none",
 		c15Search("seq", "absent", "L1,not,uid:1_1", "SEARCH NOT UID 1")}})
-	ws = append(ws, c15Witness{"charset-unsupported-panic", "violation spec-mismatch classes=charset-unsupported-panic", []string{"par 0",
+	// regression of fix 3279020: a charset known by name only is refused, the session survives
+	ws = append(ws, c15Witness{"charset-unsupported", "ok trivial badcharset", []string{"par 0",
 		c15MkMsg(nil, sent, std, "body\r\n", &sent).line(), "observe select", "mode none",
-		c15Search("seq", "unsupported", "L1,all", "SEARCH CHARSET UTF-7 ALL")}})
+		c15Search("seq", "unsupported", "L1,all", "SEARCH CHARSET UTF-7 ALL"),
+		// the second command is answered on the same connection: the session survived the first
+		c15Search("seq", "unsupported", "L1,all", "SEARCH CHARSET GB2312 ALL")}})
 	ws = append(ws, c15Witness{"num-too-big", "ok trivial parser-rejects-number", []string{"par 0",
 		c15MkMsg(nil, sent, std, "body\r\n", &sent).line(), "observe select", "mode none",
 		c15Search("seq", "absent", "L1,seq:4294967297_4294967297", "SEARCH 4294967297")}})
